@@ -196,11 +196,18 @@ def inverse_topology(outer, update, topology, inverse=None, multi_updates=True):
                 for child, child_update in update.items():
                     inner = normalize_path(outer + path + (child,))
                     if isinstance(child_update, dict):
-                        inverse = update_in(
-                            inverse,
-                            inner,
-                            lambda current: deep_merge(
-                                current, child_update))
+                        if multi_updates:
+                            inverse = update_in(
+                                inverse,
+                                inner,
+                                lambda current: deep_merge_multi_update(
+                                    current, child_update))
+                        else:
+                            inverse = update_in(
+                                inverse,
+                                inner,
+                                lambda current: deep_merge(
+                                    current, child_update))
                     else:
                         _assoc_leaf_update(
                             inverse, inner, child_update, multi_updates)
